@@ -22,7 +22,9 @@ Inductive opc :=
 | OShut1           (* inside the derived destructor, executing its leading shutdown() -- only when calls_shutdown *)
 | OTear            (* about to begin the derived teardown *)
 | OMembers         (* derived teardown in progress; next: enter ~threaded_dispatcher *)
-| OShut2           (* inside ~threaded_dispatcher, executing shutdown() *)
+| OShut2           (* inside ~threaded_dispatcher, executing shutdown() for the first time *)
+| OAgain1          (* inside ~threaded_dispatcher, executing shutdown() AGAIN: about to store the flag once more *)
+| OAgain2          (* ... about to wake the queue once more; no thread is joinable any more *)
 | ODone.
 
 Record lst := mkL {
@@ -59,16 +61,23 @@ Definition lstep (calls_shutdown : bool) (t : tid) (l : lst) : option lst :=
   | TDestroy =>
       match own l with
       | OAlive => Some (mkL (base l) (if calls_shutdown then OShut1 else OTear) (part l) (hazard l))
-      | OShut1 =>
-          if shutdown_done (base l) then Some (mkL (base l) OTear (part l) (hazard l))
-          else match step TDestroy (base l) with Some b => Some (mkL b OShut1 (part l) (hazard l)) | None => None end
+      | OShut1 =>      (* flag, wake_up, one join per worker; when the last join has returned the derived teardown is next *)
+          match step TDestroy (base l) with
+          | Some b => Some (mkL b (if shutdown_done b then OTear else OShut1) (part l) (hazard l))
+          | None => None
+          end
       | OTear =>       (* the derived teardown begins under whatever the workers are doing *)
           Some (mkL (base l) OMembers PartDying (hazard l || existsb handling (workers (base l))))
-      | OMembers =>    (* ~threaded_dispatcher is entered: vptr := base *)
-          Some (mkL (base l) OShut2 PartDead (hazard l || existsb handling (workers (base l))))
+      | OMembers =>    (* ~threaded_dispatcher is entered: vptr := base; it calls shutdown() (again) *)
+          Some (mkL (base l) (if shutdown_done (base l) then OAgain1 else OShut2) PartDead
+                    (hazard l || existsb handling (workers (base l))))
       | OShut2 =>
-          if shutdown_done (base l) then Some (mkL (base l) ODone (part l) (hazard l))
-          else match step TDestroy (base l) with Some b => Some (mkL b OShut2 (part l) (hazard l)) | None => None end
+          match step TDestroy (base l) with
+          | Some b => Some (mkL b (if shutdown_done b then ODone else OShut2) (part l) (hazard l))
+          | None => None
+          end
+      | OAgain1 => Some (mkL (base l) OAgain2 (part l) (hazard l))   (* the flag is already set *)
+      | OAgain2 => Some (mkL (base l) ODone (part l) (hazard l))     (* the queue is already woken, nothing to join *)
       | ODone => None
       end
   end.
